@@ -23,6 +23,16 @@ import GrafeoModel.Driver.Ser
 import GrafeoModel.Driver.QueryAgg
 import GrafeoModel.Driver.C15b
 import GrafeoModel.Driver.Query
+import GrafeoModel.Driver.Join
+import GrafeoModel.Driver.Epoch
+import GrafeoModel.Driver.Par
+import GrafeoModel.Driver.JoinOrder
+import GrafeoModel.Driver.Conc2
+import GrafeoModel.Driver.HnswBuild
+import GrafeoModel.Driver.Algo2
+import GrafeoModel.Driver.Lex2
+import GrafeoModel.Driver.Fact
+import GrafeoModel.Driver.Idx
 
 /-!
 `gdriver`: reads op lines `<stream> <op> <arg>*` on stdin, writes one line per op:
@@ -106,6 +116,46 @@ def dispatch (st : DState) (line : String) : DState × String :=
       | none => (st, "bad-op")
     else if stream == "c15b" then
       match DriverC15b.handle args with
+      | some o => (st, o.render)
+      | none => (st, "bad-op")
+    else if stream == "idx" then
+      match DriverIdx.handle args with
+      | some o => (st, o.render)
+      | none => (st, "bad-op")
+    else if stream == "fact" then
+      match DriverFact.handle args with
+      | some o => (st, o.render)
+      | none => (st, "bad-op")
+    else if stream == "lex2" then
+      match DriverLex2.handle args with
+      | some o => (st, o.render)
+      | none => (st, "bad-op")
+    else if stream == "alg2" then
+      match DriverAlgo2.handle args with
+      | some o => (st, o.render)
+      | none => (st, "bad-op")
+    else if stream == "hcon" then
+      match DriverHnswBuild.handle args with
+      | some o => (st, o.render)
+      | none => (st, "bad-op")
+    else if stream == "conc2" then
+      match DriverConc2.handle args with
+      | some o => (st, o.render)
+      | none => (st, "bad-op")
+    else if stream == "jo" then
+      match DriverJoinOrder.handle args with
+      | some o => (st, o.render)
+      | none => (st, "bad-op")
+    else if stream == "par" then
+      match DriverPar.handle args with
+      | some o => (st, o.render)
+      | none => (st, "bad-op")
+    else if stream == "epo" then
+      match DriverEpoch.handle args with
+      | some o => (st, o.render)
+      | none => (st, "bad-op")
+    else if stream == "join" then
+      match DriverJoin.handle args with
       | some o => (st, o.render)
       | none => (st, "bad-op")
     else if stream == "lex" then
